@@ -32,6 +32,10 @@ pub trait WorldDriver: Sized {
     fn xiterate(&mut self, q: usize, borrow: bool, break_at: Option<usize>) -> Vec<Obs>;
     fn xiter_destroy(&mut self, q: usize, decide: &mut dyn FnMut(&Obs) -> Step);
 
+    /// Engine B: performs one runtime-borrowed access on a shared reference; if the access
+    /// executes, `body` runs while its borrow is held.
+    fn baccess(&self, acc: &BAccess, body: &mut dyn FnMut(BObs));
+
     fn dump(&self, a: usize) -> VerifDump;
     fn preset(&mut self, a: usize, slot_gens: &[u32], arch_gen: u32);
     /// `__internal::new_entity_direct::<A>(idx, version)` (public but hidden; used for forging)
@@ -266,7 +270,10 @@ macro_rules! arch_driver {
             match r {
                 Ok(e) => CreateOut::Created { raw: e.to_raw(), trk: given.trk },
                 Err(c) => {
+                    // the refused components are dropped here, in harness code: not an injection point
+                    $crate::comps::suspend();
                     let back = obs_tuple(None, &c.into_tuple());
+                    $crate::comps::resume();
                     CreateOut::Full { vals: back.vals, trk: back.trk, given_trk: given.trk }
                 }
             }
@@ -286,7 +293,10 @@ macro_rules! arch_driver {
         }
 
         fn comps_out(c: <$A as Archetype>::Components) -> DestroyOut {
+            // the returned components are dropped here, in harness code: not an injection point
+            $crate::comps::suspend();
             let o = obs_tuple(None, &c.into_tuple());
+            $crate::comps::resume();
             DestroyOut { comps: Some((o.vals, o.trk)) }
         }
 
@@ -642,6 +652,107 @@ macro_rules! arch_driver {
             }
         }
 
+        /// Engine B access on this archetype (see `WorldDriver::baccess`).
+        #[allow(unused_assignments, unused_variables, unused_mut)]
+        pub fn baccess(w: &$W, acc: &BAccess, body: &mut dyn FnMut(BObs)) {
+            let col = acc.col;
+            let val = acc.write;
+            match acc.kind {
+                BKind::FindBorrowS => {
+                    let k = Entity::<$A>::from_any(any(acc.key.expect("entity access needs a key")));
+                    let mut i = 0usize;
+                    $( if i == col {
+                        ecs_find_borrow!(w, k, |e: &Entity<$A>, c: &$C| {
+                            body(BObs { raw: Some(e.to_raw()), vals: vec![c.get()] });
+                        });
+                    } i += 1; )+
+                }
+                BKind::FindBorrowM => {
+                    // dynamic key for variety
+                    let k = any(acc.key.expect("entity access needs a key"));
+                    let mut i = 0usize;
+                    $( if i == col {
+                        ecs_find_borrow!(w, k, |e: &EntityAny, c: &mut $C, _t: &Entity<$A>| {
+                            let old = c.get();
+                            c.set(val);
+                            body(BObs { raw: Some(e.to_raw()), vals: vec![old] });
+                        });
+                    } i += 1; )+
+                }
+                BKind::IterBorrowS => {
+                    let mut i = 0usize;
+                    $( if i == col {
+                        let mut n = 0usize;
+                        ecs_iter_borrow!(w, |e: &Entity<$A>, c: &$C| {
+                            if n == 0 {
+                                body(BObs { raw: Some(e.to_raw()), vals: vec![c.get()] });
+                            }
+                            n += 1;
+                        });
+                    } i += 1; )+
+                }
+                BKind::IterBorrowM => {
+                    let mut i = 0usize;
+                    $( if i == col {
+                        let mut n = 0usize;
+                        ecs_iter_borrow!(w, |e: &Entity<$A>, c: &mut $C| {
+                            if n == 0 {
+                                let old = c.get();
+                                c.set(val);
+                                body(BObs { raw: Some(e.to_raw()), vals: vec![old] });
+                            }
+                            n += 1;
+                        });
+                    } i += 1; )+
+                }
+                BKind::CompS => {
+                    let k = Entity::<$A>::from_any(any(acc.key.expect("entity access needs a key")));
+                    if let Some(b) = w.$f.borrow(k) {
+                        let mut i = 0usize;
+                        $( if i == col {
+                            let g = b.component::<$C>();
+                            body(BObs { raw: Some(b.entity().to_raw()), vals: vec![g.get()] });
+                            drop(g);
+                        } i += 1; )+
+                    }
+                }
+                BKind::CompM => {
+                    let k = any(acc.key.expect("entity access needs a key"));
+                    if let Some(b) = w.archetype::<$A>().borrow(k) {
+                        let mut i = 0usize;
+                        $( if i == col {
+                            let mut g = b.component_mut::<$C>();
+                            let old = g.get();
+                            g.set(val);
+                            body(BObs { raw: Some(b.entity().to_raw()), vals: vec![old] });
+                            drop(g);
+                        } i += 1; )+
+                    }
+                }
+                BKind::SliceS => {
+                    let mut i = 0usize;
+                    $( if i == col {
+                        let g = w.$f.borrow_slice::<$C>();
+                        body(BObs { raw: None, vals: g.iter().map(|c| c.get()).collect() });
+                        drop(g);
+                    } i += 1; )+
+                }
+                BKind::SliceM => {
+                    let mut i = 0usize;
+                    $( if i == col {
+                        let mut g = w.archetype::<$A>().borrow_slice_mut::<$C>();
+                        let old: Vec<u64> = g.iter().map(|c| c.get()).collect();
+                        if let Some(first) = g.first_mut() {
+                            first.set(val);
+                        }
+                        body(BObs { raw: None, vals: old });
+                        drop(g);
+                    } i += 1; )+
+                }
+                BKind::CloneWorld => unreachable!("clone is world level"),
+            }
+        }
+
         #[cfg(feature = "events")]
         pub fn events(w: &$W) -> (Vec<Raw>, Vec<Raw>) {
             (
@@ -755,6 +866,15 @@ macro_rules! world_driver {
             fn xiterate(&mut self, q: usize, borrow: bool, break_at: Option<usize>) -> Vec<$crate::types::Obs> { $xiterate(self, q, borrow, break_at) }
             fn xiter_destroy(&mut self, q: usize, decide: &mut dyn FnMut(&$crate::types::Obs) -> $crate::types::Step) { $xiter_destroy(self, q, decide) }
 
+            fn baccess(&self, acc: &$crate::types::BAccess, body: &mut dyn FnMut($crate::types::BObs)) {
+                if acc.kind == $crate::types::BKind::CloneWorld {
+                    let c = self.clone();
+                    drop(c);
+                    body($crate::types::BObs::default());
+                    return;
+                }
+                match acc.arch { $( $i => $m::baccess(self, acc, body), )+ _ => unreachable!() }
+            }
             fn dump(&self, a: usize) -> $crate::types::VerifDump { match a { $( $i => $m::dump(self), )+ _ => unreachable!() } }
             fn preset(&mut self, a: usize, slot_gens: &[u32], arch_gen: u32) { match a { $( $i => $m::preset(self, slot_gens, arch_gen), )+ _ => unreachable!() } }
             fn new_direct(a: usize, idx: usize, version: $crate::driver::ArchetypeVersion) -> EntityDirectAny {
